@@ -141,6 +141,9 @@ pub fn render(c: &Cell) -> Rendered {
     if c.ctx == "argxp" {
         lines.push(format!("extern fn callee(q: {});", syntax(&c.tt)));
     }
+    if c.ctx == "argcast" {
+        lines.push(format!("fn callee(q: {});", syntax(&c.tt)));
+    }
     if c.x.starts_with("sib_") {
         lines.push("fn pick(i: usize) -> usize;".to_string());
         lines.push("fn twice(v: i32) -> i32;".to_string());
@@ -249,6 +252,7 @@ pub fn render(c: &Cell) -> Rendered {
                 format!("\tvar r: {} = {};", syntax(&c.tt), r)
             }
         }
+        "argcast" => format!("\tcallee(cast {});", r),
         _ => match c.x.as_str() {
             "paren" => format!("\tcallee(({}));", r),
             "elem" => format!("\tsink_v([{}]);", r),
